@@ -459,7 +459,85 @@ REAL_ENVS = {
     "c-locale": {"LANG": "C", "LC_ALL": "C", "PYTHONUTF8": "0", "PYTHONCOERCECLOCALE": "0"},
     "cp1252-replace": {"PYTHONIOENCODING": "cp1252:replace", "LANG": "C.UTF-8", "LC_ALL": "C.UTF-8"},
 }
-REAL_ENV_ORDER = ["utf-8", "latin-1", "utf-8", "ascii", "utf-8", "c-locale", "utf-8", "cp1252-replace"]
+REAL_ENVS["pty"] = {"LANG": "C.UTF-8", "LC_ALL": "C.UTF-8", "TERM": "xterm"}
+REAL_ENV_ORDER = ["utf-8", "latin-1", "pty", "ascii", "utf-8", "c-locale", "pty", "cp1252-replace"]
+PTY_MAX_BYTES = 2000  # the line discipline holds 4096 bytes of unread input; everything is written up front
+
+
+def pty_able(argv, script):
+    """A pseudo-terminal in canonical mode edits its input (erase, kill, EOF characters) and holds a
+    bounded amount of it: only short scripts of printable ASCII go through it unchanged."""
+    total = 0
+    for kind, t in script:
+        if kind == "m":
+            # CPython's terminal path of input() drops the last character of an unterminated final line
+            # (it assumes the newline is there): not the program's doing, so such scripts stay on pipes
+            return False
+        total += len(t) + 1
+        for ch in t:
+            if not (" " <= ch <= "~" or ch == "\t"):
+                return False
+    return total <= PTY_MAX_BYTES and pure_ascii(argv, [])
+
+
+def run_real_pty(argv, script, python=None, timeout=60):
+    """The same run as a real child process whose stdin, stdout and stderr are one pseudo-terminal
+    (`input()` then takes its terminal path, stdout is line buffered, isatty() is true). The terminal is
+    put into a plain canonical mode (no echo, no signal / flow-control characters, no output
+    post-processing) and the whole script is written before the child starts, each end of input as the
+    EOF character at the start of a line: nothing depends on timing."""
+    import select
+    import termios
+    import time
+
+    repo = core.repo_dir()
+    env = {"PYTHONPATH": repo, "PYTHONHASHSEED": "0", "PYTHONDONTWRITEBYTECODE": "1",
+           "PATH": os.environ.get("PATH", "/usr/bin:/bin"), "HOME": "/nonexistent"}
+    env.update(REAL_ENVS["pty"])
+    master, slave = os.openpty()
+    try:
+        a = termios.tcgetattr(slave)
+        a[0] &= ~(termios.ICRNL | termios.INLCR | termios.IGNCR | termios.IXON | termios.IXOFF | termios.ISTRIP)
+        a[1] &= ~termios.OPOST
+        a[3] &= ~(termios.ECHO | termios.ECHOE | termios.ECHOK | termios.ECHONL | termios.ISIG | termios.IEXTEN)
+        a[3] |= termios.ICANON
+        termios.tcsetattr(slave, termios.TCSANOW, a)
+        data = stdin_bytes(script)
+        data += b"\x04" * 6
+        os.write(master, data)
+        p = subprocess.Popen([python or sys.executable, "-m", "cvss.cvss_calculator"] + list(argv), stdin=slave, stdout=slave,
+                             stderr=slave, cwd=repo, env=env, close_fds=True)
+    finally:
+        os.close(slave)
+    chunks = []
+    deadline = time.time() + timeout
+    try:
+        while True:
+            left = deadline - time.time()
+            if left <= 0:
+                p.kill()
+                p.wait()
+                raise subprocess.TimeoutExpired(argv, timeout)
+            r, _, _ = select.select([master], [], [], min(left, 1.0))
+            if not r:
+                if p.poll() is not None:
+                    # the child is gone and nothing is pending
+                    r2, _, _ = select.select([master], [], [], 0)
+                    if not r2:
+                        break
+                continue
+            try:
+                b = os.read(master, 65536)
+            except OSError:
+                break  # EIO: every slave descriptor is closed
+            if not b:
+                break
+            chunks.append(b)
+        p.wait()
+    finally:
+        os.close(master)
+    text = b"".join(chunks).decode("utf-8", "replace")
+    return {"exit": p.returncode, "stdout": text, "stderr": text if looks_like_crash(text) else ""}
 
 
 def pure_ascii(argv, script):
@@ -589,11 +667,16 @@ class CliEngine(object):
     def compare_real(self, out, item, res, envname=None):
         if envname is None:
             envname = out["trace"].get("real_env") or "utf-8"
+        if envname == "pty" and not pty_able(item["argv"], item["script"]):
+            envname = "utf-8"
         if envname != "utf-8" and not pure_ascii(item["argv"], item["script"]):
             envname = "utf-8"
         out["trace"]["real_env"] = envname
         try:
-            real = run_real(item["argv"], item["script"], envname=envname)
+            if envname == "pty":
+                real = run_real_pty(item["argv"], item["script"])
+            else:
+                real = run_real(item["argv"], item["script"], envname=envname)
         except subprocess.TimeoutExpired:
             out["violations"].append(violation(PROP, "a", "real-process-hangs", "real child process did not finish in 60 s [argv=%r]" % (item["argv"],)))
             return
@@ -616,8 +699,12 @@ class CliEngine(object):
                 v["sig"] += ":real-process"
                 v["message"] += " (observed on the real child process, environment %r: %s)" % (envname, REAL_ENVS[envname])
             if not vio:
-                raise core.HarnessError("stub and real process (env %s) disagree but neither violates the property: argv=%r sim=(%r,%r,%r) real=(%r,%r,%r)" %
-                                        (envname, item["argv"], sim_exit, res["stdout"][-200:], res["stderr"][-200:], real["exit"], real["stdout"][-200:], real["stderr"][-200:]))
+                # the program may legitimately present things differently on a terminal / under another
+                # encoding (the statement pins the reported values, judged above): counted, with a sample
+                out["counters"]["stub_vs_real_differences_without_violation"] = 1
+                out["counters"]["stub_vs_real_differences_without_violation.env." + envname] = 1
+                out.setdefault("notes", []).append("stub and real process (env %s) differ without violating the property: argv=%r sim=(%r,%r) real=(%r,%r)" %
+                                                   (envname, item["argv"], sim_exit, res["stdout"][-120:], real["exit"], real["stdout"][-120:]))
             out["violations"].extend(vio)
 
     def execute(self, trace, shrinking=False):
